@@ -35,7 +35,11 @@
 (*            hash, dict put / get of itself, copies and mapper results    *)
 (*            and the same on those ("selfn": the NaN-carrying members at  *)
 (*            depth SelfDepth + 1; "ssmall": three of them, no emission;   *)
-(*            "nsmall": two NaN twin pairs, full alphabet, thorough tier)  *)
+(*            "nsmall": two NaN twin pairs, full alphabet, thorough tier;  *)
+(*            round 4: the quick tier adds KwSpecsQuick, objects of user   *)
+(*            classes with keyword-only / init=False fields)               *)
+(*   "ksmall" pairs of such objects differing in such a field only, full   *)
+(*            alphabet (model check and negative control, no emission)     *)
 (***************************************************************************)
 EXTENDS C01_Objects, C01_Catalogue, Json
 CONSTANTS Sweeps, PairDepth, NearDepth, DeepDepth, HierDepth, XDepth, SelfDepth, Wide, EmitCases
@@ -101,7 +105,9 @@ Init ==
                   [] sweep = "xnear" -> NearPairs
                   [] sweep = "xdeep" -> RepPairsQuick \cup (IF Wide THEN Twins(RepPairsQuick) ELSE {})
                   [] sweep = "xsmall" -> SmallPairs \cup Twins(SmallPairs)
-                  [] sweep = "self"  -> { << sp >> : sp \in (IF Wide THEN AllSpecs ELSE NaNSpecsQuick) }
+                  [] sweep = "self"  -> { << sp >> : sp \in (IF Wide THEN AllSpecs
+                                                               ELSE NaNSpecsQuick \cup KwSpecsQuick) }
+                  [] sweep = "ksmall" -> KwSmallPairs
                   [] sweep = "selfn" -> { << sp >> : sp \in NaNSpecs }
                   [] sweep = "ssmall" -> SelfSmall
     /\ arr \in (IF sweep \in XSweeps THEN XCombos
@@ -162,7 +168,7 @@ FullAlphabet ==
 Depth == CASE sweep = "pairs" -> PairDepth
            [] sweep = "near"  -> NearDepth
            [] sweep \in {"deep", "deepq"}  -> DeepDepth
-           [] sweep \in {"small", "nsmall"} -> DeepDepth
+           [] sweep \in {"small", "nsmall", "ksmall"} -> DeepDepth
            [] sweep = "sim"   -> 1000
            [] sweep \in {"hier", "hsmall"} -> HierDepth
            [] sweep \in {"xtwin", "xsmall"} -> XDepth
